@@ -897,7 +897,10 @@ impl Check for C20 {
         let topic = str_of(tlen, &mut r);
         let corr = r.bytes(dlen);
         let mut props: Vec<Prop> = Vec::new();
-        for _ in 0..r.below(4) {
+        // (one request in six carries many other properties - User Property and Subscription
+        // Identifier may repeat - so that the two that matter can sit far into the block)
+        let n_other = if r.chance(1, 6) { r.range(6, 24) } else { r.below(4) };
+        for _ in 0..n_other {
             props.push(match r.below(4) {
                 0 => Prop::UserProperty(str_of(r.below(5), &mut r), str_of(r.below(5), &mut r)),
                 1 => Prop::SubscriptionId(1 + r.below(1000) as u32),
